@@ -555,6 +555,53 @@ func makeCase(rng *rand.Rand, i int, boundary bool) *kcCase {
 	return c
 }
 
+// runLegacy: a credential that also carries the legacy, string-valued KeyUsage entry (a second
+// entry with identifier 4): both usage entries are content, parse back and re-serialise.
+func runLegacy(c *kcCase, legacy string) {
+	exp := []byte{byte(c.Exp >> 24), byte(c.Exp >> 16), byte(c.Exp >> 8), byte(c.Exp)}
+	material := refBuildRSA(c.KeySize, exp, c.Mod, c.P1, c.P2)
+	dev := refGUIDPacket(c.Dev.A, c.Dev.B, c.Dev.C, c.Dev.D, c.Dev.E)
+	entry := func(id byte, v []byte) []byte { return append(append(put16(len(v)), id), v...) }
+	var tail []byte
+	tail = append(tail, entry(3, material)...)
+	tail = append(tail, entry(4, []byte{1})...)
+	tail = append(tail, entry(4, []byte(legacy))...)
+	tail = append(tail, entry(5, []byte{0})...)
+	tail = append(tail, entry(6, dev)...)
+	tail = append(tail, entry(7, []byte{1, 0})...)
+	tail = append(tail, entry(8, put64(c.LastLogon))...)
+	tail = append(tail, entry(9, put64(c.Creation))...)
+	kid := sha256.Sum256(material)
+	kh := sha256.Sum256(tail)
+	blob := put32(c.Version)
+	blob = append(blob, entry(1, kid[:])...)
+	blob = append(blob, entry(2, kh[:])...)
+	blob = append(blob, tail...)
+	cs := c.json()
+	cs["blob_hex"], cs["legacy_usage"] = mon.FullHex(blob), legacy
+	guard("KeyCredential.legacy", cs, func() {
+		var k kcl.KeyCredential
+		err := k.FromBytes(append([]byte{}, blob...))
+		ev(1)
+		if err != nil {
+			r.Violation("KeyCredential.FromBytes:accept-foreign:legacy-usage", fmt.Sprintf("FromBytes(blob with a legacy KeyUsage entry %q): %v", legacy, err), cs)
+			return
+		}
+		if k.LegacyUsage != legacy || k.Usage.Value != 1 {
+			r.Violation("KeyCredential.FromBytes:field:legacy-usage", fmt.Sprintf("LegacyUsage=%q Usage=%d, the blob carries usage 1 and the legacy entry %q", k.LegacyUsage, k.Usage.Value, legacy), cs)
+		}
+		if !k.CheckIntegrity() {
+			r.Violation("KeyCredential.CheckIntegrity:foreign", "CheckIntegrity() is false on an untouched reference blob with a legacy KeyUsage entry", cs)
+		}
+		again, err := k.ToBytes()
+		ev(2)
+		if err != nil || !bytes.Equal(again, blob) {
+			r.Violation("KeyCredential.ToBytes:reserialize-foreign:legacy-usage", fmt.Sprintf("re-serialisation of a blob with the legacy KeyUsage entry %q differs at offset %d (err=%v)", legacy, firstDiff(blob, again), err), cs)
+		}
+	})
+	r.Nontrivial(fmt.Sprintf("legacy|%s|%s", c.fingerprint(), legacy))
+}
+
 // CustomKeyInformation forms per MS-ADTS 2.2.20.6: two bytes, or the full structure (19 bytes + extension).
 func ckiForms(rng *rand.Rand) (forms [][]byte, classes []string) {
 	add := func(b []byte, c string) { forms = append(forms, b); classes = append(classes, c) }
@@ -568,6 +615,12 @@ func ckiForms(rng *rand.Rand) (forms [][]byte, classes []string) {
 		return append(b, randBytes(rng, ext)...)
 	}
 	add(full(0), "full")
+	// every byte of the 32-bit strength distinct, its sign bit, all ones (documented values are 0..2)
+	for _, st := range []uint32{0x04030201, 0x80000000, 0xFFFFFFFF, 0x00FF0000, 0x01000000, rng.Uint32()} {
+		b := full(0)
+		copy(b[5:9], put32(st))
+		add(b, "full")
+	}
 	add(full(1), "full-ext")
 	add(full(2), "full-ext")
 	add(full(1+rng.IntN(40)), "full-ext")
@@ -627,6 +680,7 @@ func main() {
 				usage := []byte{0, 1, 2, 3, 4, 7, 8, 9, 0xFF}[(i+j)%9]
 				runForeign(c, usage, byte((i+j)%2), forms[j], classes[j], j == i%len(forms))
 			}
+			runLegacy(c, []string{"NGC", "FIDO", "FEK", "ab", strings.Repeat("L", 300)}[i%5])
 			if blob != nil {
 				checkDN(dnBoundary[i%len(dnBoundary)], blob, true)
 			}
